@@ -43,6 +43,9 @@ type machine struct {
 
 	// non-triviality bookkeeping
 	reopened, evicting, ovCommitShadow, seekOnDirty, getDuringIter, forked, refused bool
+	noPersist, secondCommitter                                                      bool
+	// committed: contents of the last committed (and finalized) version
+	committed kv.Model
 	stratum                                                                         string
 }
 
@@ -360,6 +363,63 @@ func (m *machine) treeCommit(t *rapid.T) {
 		t.Skip("overlays open")
 	}
 	m.version++
+	switch rapid.IntRange(0, 5).Draw(t, "beforeCommit") {
+	case 0:
+		// what the consensus layer does for every proposal: the root of the working state computed WITHOUT storing
+		// anything, after which the tree is written further and committed for real
+		_, nh, err := m.base.Commit(ctx, kv.Namespace, m.version, mkvs.NoPersist())
+		if err != nil {
+			m.fail("no-persist commit v%d: %v", m.version, err)
+		}
+		if want := kv.RefRoot(m.stack[0].model); nh != want {
+			m.fail("root computed by the no-persist commit %s, reference root of the model %s", nh, want)
+		}
+		m.noPersist = true
+		m.log("no-persist commit v%d", m.version)
+		m.fullCheck()
+		for i := rapid.IntRange(0, 2).Draw(t, "writesAfterNoPersist"); i > 0; i-- {
+			m.insert(t)
+		}
+	case 1:
+		// the same contents are committed FIRST by another tree, built from the last committed contents by plain
+		// inserts and removes: this tree's commit then finds its root in place and the tree goes on
+		var other mkvs.Tree
+		if m.version == 1 {
+			other = mkvs.New(nil, m.ndb, node.RootTypeState)
+		} else {
+			other = mkvs.NewWithRoot(nil, m.ndb, kv.Root(m.version-1, node.RootTypeState, m.root))
+		}
+		var keys []string
+		for k := range m.committed {
+			if _, in := m.stack[0].model[k]; !in {
+				keys = append(keys, k)
+			}
+		}
+		sort.Strings(keys)
+		for _, k := range keys {
+			_ = other.Remove(ctx, []byte(k))
+		}
+		keys = keys[:0]
+		for k, v := range m.stack[0].model {
+			if ov, was := m.committed[k]; !was || !bytes.Equal(ov, v) {
+				keys = append(keys, k)
+			}
+		}
+		sort.Strings(keys)
+		for _, k := range keys {
+			_ = other.Insert(ctx, []byte(k), m.stack[0].model[k])
+		}
+		_, oh, err := other.Commit(ctx, kv.Namespace, m.version)
+		other.Close()
+		if err != nil {
+			m.fail("commit of the same contents by another tree v%d: %v", m.version, err)
+		}
+		if want := kv.RefRoot(m.stack[0].model); oh != want {
+			m.fail("root committed by the other tree %s, reference root of the model %s", oh, want)
+		}
+		m.secondCommitter = true
+		m.log("v%d committed first by another tree", m.version)
+	}
 	_, rh, err := m.base.Commit(ctx, kv.Namespace, m.version)
 	if err != nil {
 		m.fail("tree commit v%d: %v", m.version, err)
@@ -368,6 +428,7 @@ func (m *machine) treeCommit(t *rapid.T) {
 		m.fail("finalize v%d: %v", m.version, err)
 	}
 	m.root = rh
+	m.committed = m.stack[0].model.Clone()
 	m.log("tree commit v%d", m.version)
 	if want := kv.RefRoot(m.stack[0].model); rh != want {
 		m.fail("root after commit %s, reference root of the model %s", rh, want)
@@ -399,7 +460,7 @@ func (m *machine) treeCommitRefused(t *rapid.T) {
 
 const rule = "case = rapid state machine: one tree on a node database (both backends, generated cache capacity stratum, write log on/off) and a stack of 0-3 overlays created exactly as Context.NewTransaction does; " +
 	"actions on the top object: insert, remove, remove-existing; reads on any layer: get, iterator Rewind/Seek (present, absent, prefix, extension, before-first, after-last keys) + Next with gets interleaved; " +
-	"overlay push / commit (directly or via Copy) / discard / fork (Copy with both sides kept open and written); tree commit+finalize with optional close and reopen at the committed root with a new capacity; a commit the database REFUSES (into the finalized version) after which the tree goes on; universe 1-40 prefix-heavy keys. " +
+	"overlay push / commit (directly or via Copy) / discard / fork (Copy with both sides kept open and written); tree commit+finalize with optional close and reopen at the committed root with a new capacity; a commit the database REFUSES (into the finalized version) after which the tree goes on; a NoPersist commit (root computed, nothing stored) followed by further writes; the same contents committed first by ANOTHER tree (this tree's commit finds its root stored) after which the tree goes on; universe 1-40 prefix-heavy keys. " +
 	"oracle = reference ordered map per layer: every result, and after every action a full scan and a get of every universe key on every layer; root after each commit equals the reference root. " +
 	"non-trivial = (commit+reopen or evicting capacity) AND an overlay commit over a key present in its parent AND a Seek to a key written/removed in that overlay; distinct = hash of the action trace"
 
@@ -477,7 +538,7 @@ func TestC03OrderedMap(t *testing.T) {
 			on   bool
 			name string
 		}{{m.reopened, "commit+reopen"}, {m.refused, "commit-refused-then-continued"}, {m.evicting, "evicting-capacity"}, {m.ovCommitShadow, "overlay-commit-over-parent-key"},
-			{m.seekOnDirty, "seek-on-overlay-written-key"}, {m.getDuringIter, "get-during-iteration"}, {m.forked, "overlay-forked-with-copy"}, {m.noWL, "without-writelog"}} {
+			{m.seekOnDirty, "seek-on-overlay-written-key"}, {m.getDuringIter, "get-during-iteration"}, {m.forked, "overlay-forked-with-copy"}, {m.noWL, "without-writelog"}, {m.noPersist, "no-persist-commit-then-continued"}, {m.secondCommitter, "committed-second-then-continued"}} {
 			if l.on {
 				rec.Label(l.name)
 			}
